@@ -40,6 +40,8 @@ struct Col {
     not_null: bool,
     default: Option<String>,
     generated: Option<String>,
+    /// definition details that only live in the column's text (collation, CHECK)
+    extra: Option<String>,
 }
 
 #[derive(Clone, Debug)]
@@ -67,6 +69,9 @@ impl Tbl {
                 if let Some(d) = &c.default {
                     s.push_str(&format!(" DEFAULT {d}"));
                 }
+                if let Some(x) = &c.extra {
+                    s.push_str(&format!(" {x}"));
+                }
                 s
             })
             .collect();
@@ -87,6 +92,7 @@ fn new_table(rng: &mut impl Rng, i: usize) -> Tbl {
         not_null: true,
         default: None,
         generated: None,
+        extra: None,
     }];
     let mut pk = vec!["id1".to_string()];
     if composite {
@@ -96,6 +102,7 @@ fn new_table(rng: &mut impl Rng, i: usize) -> Tbl {
             not_null: true,
             default: None,
             generated: None,
+            extra: None,
         });
         pk.push("id2".into());
     }
@@ -105,6 +112,7 @@ fn new_table(rng: &mut impl Rng, i: usize) -> Tbl {
         not_null: true,
         default: Some("''".into()),
         generated: None,
+        extra: None,
     });
     cols.push(Col {
         name: "n0".into(),
@@ -112,6 +120,15 @@ fn new_table(rng: &mut impl Rng, i: usize) -> Tbl {
         not_null: false,
         default: None,
         generated: None,
+        extra: None,
+    });
+    cols.push(Col {
+        name: "d0".into(),
+        ty: "VARCHAR(10)",
+        not_null: false,
+        default: None,
+        generated: None,
+        extra: Some(pick(rng, &["COLLATE NOCASE", "CHECK (length(d0) < 100)", "COLLATE NOCASE CHECK (d0 <> 'forbidden')"]).to_string()),
     });
     Tbl {
         name: format!("s{i}"),
@@ -129,7 +146,7 @@ fn project(s: &Schema) -> BTreeMap<String, String> {
             let cols: Vec<String> = t
                 .columns
                 .iter()
-                .map(|(cn, c)| format!("{cn}:{:?}:{}:{:?}:{:?}:{}", c.sql_type, c.nullable, c.default_value, c.generated.as_ref().map(|g| &g.raw), c.primary_key))
+                .map(|(cn, c)| format!("{cn}:{:?}:{}:{:?}:{:?}:{}:[{:?}]", c.sql_type, c.nullable, c.default_value, c.generated.as_ref().map(|g| &g.raw), c.primary_key, c.raw))
                 .collect();
             let mut idx: Vec<String> = t.indexes.iter().map(|(n, i)| format!("{n}({:?})u{}", i.columns.iter().map(|c| format!("{:?}", c.expr)).collect::<Vec<_>>(), i.unique)).collect();
             idx.sort();
@@ -267,13 +284,13 @@ pub async fn one_execution(seed: u64, stats: &mut BTreeMap<String, u64>) -> Resu
         } else if choice < 22 {
             edit = "add_column_nullable";
             let n = proposal[ti].cols.len();
-            proposal[ti].cols.push(Col { name: format!("c{n}"), ty: *pick(&mut rng, &["TEXT", "INTEGER", "REAL", "BLOB"]), not_null: false, default: None, generated: None });
+            proposal[ti].cols.push(Col { name: format!("c{n}"), ty: *pick(&mut rng, &["TEXT", "INTEGER", "REAL", "BLOB"]), not_null: false, default: None, generated: None, extra: None });
             stmts.push(proposal[ti].sql());
             expect_ok = true;
         } else if choice < 32 {
             edit = "add_column_default";
             let n = proposal[ti].cols.len();
-            proposal[ti].cols.push(Col { name: format!("c{n}"), ty: "INTEGER", not_null: true, default: Some(format!("{}", rng.random_range(0..9))), generated: None });
+            proposal[ti].cols.push(Col { name: format!("c{n}"), ty: "INTEGER", not_null: true, default: Some(format!("{}", rng.random_range(0..9))), generated: None, extra: None });
             stmts.push(proposal[ti].sql());
             expect_ok = true;
         } else if choice < 38 {
@@ -341,10 +358,24 @@ pub async fn one_execution(seed: u64, stats: &mut BTreeMap<String, u64>) -> Resu
             }
             stmts.push(proposal[ti].sql());
             expect_ok = false;
-        } else if choice < 85 {
+        } else if choice < 83 {
+            edit = "change_definition_detail";
+            // collation, declared size or CHECK of an existing column: nothing but the
+            // column's text changes
+            let Some(pos) = proposal[ti].cols.iter().position(|c| c.name == "d0") else { continue };
+            match rng.random_range(0..4) {
+                0 => proposal[ti].cols[pos].ty = "VARCHAR(20)",
+                1 => proposal[ti].cols[pos].extra = Some("COLLATE BINARY".into()),
+                2 => proposal[ti].cols[pos].extra = Some("CHECK (length(d0) < 5)".into()),
+                _ => proposal[ti].cols[pos].extra = None,
+            }
+            stmts.push(proposal[ti].sql());
+            expect_ok = false;
+            nontrivial |= has_data(&model, ti, &before);
+        } else if choice < 86 {
             edit = "not_null_without_default";
             let n = proposal[ti].cols.len();
-            proposal[ti].cols.push(Col { name: format!("c{n}"), ty: "TEXT", not_null: true, default: None, generated: None });
+            proposal[ti].cols.push(Col { name: format!("c{n}"), ty: "TEXT", not_null: true, default: None, generated: None, extra: None });
             stmts.push(proposal[ti].sql());
             expect_ok = false;
         } else if choice < 89 {
@@ -365,7 +396,7 @@ pub async fn one_execution(seed: u64, stats: &mut BTreeMap<String, u64>) -> Resu
             edit = "syntax_error_late";
             // a valid, state-changing first statement followed by garbage
             let n = proposal[ti].cols.len();
-            proposal[ti].cols.push(Col { name: format!("c{n}"), ty: "TEXT", not_null: false, default: None, generated: None });
+            proposal[ti].cols.push(Col { name: format!("c{n}"), ty: "TEXT", not_null: false, default: None, generated: None, extra: None });
             stmts.push(proposal[ti].sql());
             stmts.push("CREATE TABLE oops (id INTEGER PRIMARY KEY NOT NULL, ;".into());
             expect_ok = false;
@@ -390,7 +421,7 @@ pub async fn one_execution(seed: u64, stats: &mut BTreeMap<String, u64>) -> Resu
         if edit == "add_column_default" && chance(&mut rng, 300) {
             // a generated column rides along sometimes
             let n = proposal[ti].cols.len();
-            proposal[ti].cols.push(Col { name: format!("g{n}"), ty: "TEXT", not_null: false, default: None, generated: Some("v0 || 'x'".into()) });
+            proposal[ti].cols.push(Col { name: format!("g{n}"), ty: "TEXT", not_null: false, default: None, generated: Some("v0 || 'x'".into()), extra: None });
             stmts = vec![proposal[ti].sql()];
         }
         bump(stats, "submissions");
